@@ -956,7 +956,7 @@ def run(tier, seed):
     thorough = tier == "thorough"
     rng = random.Random(seed)
     maxlen, maxlen_nosp = (6, 5) if thorough else (5, 4)
-    n_formulas, n_bases, n_queries = (40000, 8000, 6000) if thorough else (2400, 450, 300)
+    n_formulas, n_bases, n_queries = (32000, 6000, 4000) if thorough else (2400, 450, 300)
     per = 125 if thorough else 50
     jobs = [("exh", it) for it in _exhaustive_items(maxlen, maxlen_nosp)]
     jobs += [("fixed", None)]
